@@ -12,6 +12,11 @@ from fractions import Fraction
 from .model import AnalysisError, dotted_name, norm
 
 
+# opaque atoms a rule names on purpose in its oracle (e.g. the two results of a rationalising helper): their presence on
+# one side of a comparison does not make the comparison undecided
+EXPECTED_OPAQUE = set()
+
+
 class NotSymbolic(AnalysisError):
     pass
 
@@ -133,8 +138,8 @@ class Term:
             return True
         # an inequality is a verdict only between fully interpreted terms: a part the abstraction could not interpret
         # (opaque atom "<...>") on one side only means the comparison is undecided, not that the code is wrong
-        mine = {a for a in self.atoms() if a.startswith("<")}
-        theirs = {a for a in o.atoms() if a.startswith("<")}
+        mine = {a for a in self.atoms() if a.startswith("<")} - EXPECTED_OPAQUE
+        theirs = {a for a in o.atoms() if a.startswith("<")} - EXPECTED_OPAQUE
         if mine != theirs:
             raise NotSymbolic(f"term has parts the abstraction does not interpret: {sorted(mine ^ theirs)[0][:120]}")
         return False
